@@ -543,6 +543,53 @@ modarg(const char *name)
     return name ? ly_ctx_get_module_implemented(ctx, name) : NULL;
 }
 
+/* would lyd_new_term(parent, mod, name) add a key leaf to an existing list instance? */
+static int
+new_is_key(const struct lyd_node *par, const struct lys_module *mod, const char *name)
+{
+    const struct lysc_node *sn;
+
+    if (!par || !par->schema || (par->schema->nodetype != LYS_LIST)) {
+        return 0;
+    }
+    sn = lys_find_child(par->schema, mod ? mod : par->schema->module, name, 0, LYS_LEAF, 0);
+    return sn && (sn->flags & LYS_KEY);
+}
+
+/* a key leaf that sits in its list instance: creating, moving or removing it alone leaves a list instance that the
+ * sorted-list and hash code cannot handle (outside the API contract; not exercised) */
+static int
+is_placed_key(const struct lyd_node *n)
+{
+    return n && n->schema && (n->schema->flags & LYS_KEY) && n->parent;
+}
+
+static int
+in_keyed_list(const struct lyd_node *n)
+{
+    return n && n->parent && n->parent->schema && (n->parent->schema->nodetype == LYS_LIST) && !(n->parent->schema->flags & LYS_KEYLESS);
+}
+
+/* sibling ring sane? (bounded walk; a node linked to itself is what F61 leaves behind) */
+static int
+ring_broken(const struct lyd_node *n)
+{
+    const struct lyd_node *it;
+    long steps = 0;
+
+    for (it = n; it->prev->next; it = it->prev) {
+        if (++steps > 100000) {
+            return 1;
+        }
+    }
+    for (it = n; it->next; it = it->next) {
+        if (++steps > 200000) {
+            return 1;
+        }
+    }
+    return 0;
+}
+
 static int
 is_inner(const struct lyd_node *n)
 {
@@ -836,13 +883,14 @@ do_op(const struct op *o, int idx)
         } else if (IS("nt")) {
             uint32_t opts = (uint32_t)A_i(o, 5) & (LYD_NEW_VAL_OUTPUT | LYD_NEW_VAL_STORE_ONLY);
 
+            if (new_is_key(par, mod, nm)) return -1;
             rc = lyd_new_term(par, mod, nm, A_s(o, 6, NULL), opts, &node);
         } else if (IS("ntb")) {
             uint32_t opts = (uint32_t)A_i(o, 5) & (LYD_NEW_VAL_OUTPUT | LYD_NEW_VAL_STORE_ONLY);
             size_t vl;
             char *v = A_s(o, 6, &vl);
 
-            if (!v) return -1;
+            if (!v || new_is_key(par, mod, nm)) return -1;
             if (A_i(o, 7)) {
                 rc = lyd_new_term(par, mod, nm, v, opts | LYD_NEW_VAL_BIN, &node);     /* length taken by strlen */
             } else {
@@ -1112,6 +1160,7 @@ do_op(const struct op *o, int idx)
         }
         n = sel(s, A_s(o, 2, NULL));
         if (!n) return -1;
+        if (is_placed_key(n) || (IS("fs") && in_keyed_list(n))) return -1;
         if (IS("ft")) {
             alt = (n == slot[s]) ? n->next : slot[s];
             lyd_free_tree(n);
@@ -1157,6 +1206,10 @@ do_op(const struct op *o, int idx)
         /* never into the own subtree; a first top-level sibling moves together with its followers */
         if (in_subtree(n, dst)) return -1;
         if ((a == b) && !n->parent && !n->prev->next && n->next) return -1;
+        if (is_placed_key(n)) return -1;
+        /* F61: lyd_insert_sibling() of the node that is the first sibling of the destination links the node to itself;
+         * only the witness (arg 5 = 1) goes there */
+        if (IS("is") && (lyd_first_sibling(dst) == n) && !A_i(o, 5)) return -1;
         LY_LIST_FOR(slot[b], it) {
             if (ntl < 64) tl[ntl++] = it;
         }
@@ -1168,6 +1221,21 @@ do_op(const struct op *o, int idx)
             rc = lyd_insert_before(dst, n);
         } else {
             rc = lyd_insert_after(dst, n);
+        }
+        if (ring_broken(n)) {
+            /* the node cannot be reached or freed any more: abandon it (shows up as a leak) */
+            n_integ++;
+            slot[a] = home(dst);
+            if (a != b) {
+                slot[b] = NULL;
+                for (i = 0; i < ntl; i++) {
+                    if ((tl[i] != n) && !ring_broken(tl[i]) && (home(tl[i]) != slot[a])) {
+                        slot[b] = home(tl[i]);
+                        break;
+                    }
+                }
+            }
+            return rc;
         }
         slot[a] = home(dst);
         if (a != b) {
